@@ -14,6 +14,10 @@ CLAIMED = {
   "Lean 4 theorems about the real-number reading of typhon/physics/atmosphere.py that tools/py2lean REGENERATES from /repo on every run (30 theorems: the six converter inverses, all six two-step routes, 0->0, ranges, strict monotonicity of all six converters, positivity and the rejection guard of the Murphy-Koop formulas, strict monotonicity of e_eq_ice_mk on [100,400] K, the three branches / continuity at both branch temperatures / betweenness of e_eq_mixed_mk, RH<->vmr inverses for any saturation function, 0 < moist lapse rate < g/cp and its dry limit).  A source change that breaks a law breaks a proof; the check then searches the real code for a failing input with an exact-Fraction / longdouble oracle.",
   "Trusted: Lean kernel + 3 standard axioms; the translator tools/py2lean (validated each run by cross-running the Float reading of the same AST against numpy); floating point, numpy broadcasting and masks are modelled pointwise, not verified.  NOT proved (swept numerically only): monotonicity of e_eq_water_mk, ice <= liquid below the triple point and their 1e-6 agreement there.",
   "Lean 4 proof over a model regenerated from the source by a translator (py2lean) + Float cross-run + exact oracle"),
+ "C08": ("numeric",
+  "Lean 4 theorems about the real-number reading of typhon/physics/em.py regenerated from /repo by tools/py2lean on every run (20 theorems: planck positive, strictly increasing in T, <= Rayleigh-Jeans, ratio x/(e^x-1) -> 1 as hf/kT -> 0 (Filter.Tendsto), radiance2planckTb and radiance2rayleighjeansTb invert planck / rayleighjeans, wavelength and wavenumber forms, all six unit converters mutually inverse and consistent, pointwise inverses of the four spectral-density converters and that they map planck onto planck_wavelength / planck_wavenumber, Snell's law without total reflection, |Rv|,|Rh| <= 1, |Rv| = |Rh| at normal incidence and Rv = 0 at the Brewster angle for real indices).  A breaking source change breaks a proof; the check then finds a failing input on the real code with a longdouble expm1/log1p oracle.",
+  "Trusted: Lean kernel + 3 standard axioms; translator tools/py2lean (Float cross-run against numpy each run).  Float cancellation, array reversal/reshape glue of the density converters, NaN beyond total reflection and complex refractive indices are validated by the harness only.",
+  "Lean 4 proof over a model regenerated from the source by a translator (py2lean) + Float cross-run + high-precision oracle"),
 }
 NOT_YET = "no Lean model built yet for this property (under construction; see DESIGN.md section 6) - not claimed rather than served by another technique"
 
